@@ -46,9 +46,23 @@ def check(ctx, args):
     ctx.oblige("implementation observations are well formed (no panic, output parses, input slice not modified, type dump stable)",
                not bad_obs, "; ".join(b.strip()[:200] for b in bad_obs[:5]))
     kinds = {}
+    envsrc = {}
     with open(cases) as fc:
         for c in fc:
             kinds[c[0]] = kinds.get(c[0], 0) + 1
+            if c[0] == "e":
+                f = c.split(" ")
+                envsrc[f[1]] = bytes.fromhex(f[2]).decode(errors="replace") if f[2] != "-" else ""
+
+    def describe(case_line):
+        cf = case_line.strip().split(" ")
+        d = {"case": case_line.strip()[:3000], "mro": envsrc.get(cf[1], "")}
+        if cf[0] == "c":
+            d["type (name:arraydim:mapdim)"] = cf[2]
+            d["json"] = bytes.fromhex(cf[4]).decode(errors="replace") if cf[4] != "-" else ""
+        elif cf[0] == "a":
+            d["target <- source (name:arraydim:mapdim)"] = cf[2] + " <- " + cf[3]
+        return d
     if okc:
         # -- correspondence, volume: extracted model
         ctx.model_run("c17", cases, model)
@@ -58,9 +72,12 @@ def check(ctx, args):
                    not mism, "; ".join("case %s impl=%s model=%s" % (m[1][:300], m[2][:160], m[3][:160]) for m in mism[:5] if m))
         for m in [m for m in mism if m][:3]:
             f = m[1].split(" ")
-            ctx.fail("model_mismatch", "impl=%s model=%s" % (m[2][:200], m[3][:200]),
-                     {"case": m[1][:4000], "implementation": m[2][:2000], "model": m[3][:2000],
-                      "how": "vh c17 impl vs ocaml/c17/model on this case line; fields: kind env typeid type hex(json text) parsed value"})
+            rep = describe(m[1])
+            rep.update({"implementation": m[2][:2000], "model": m[3][:2000],
+                        "how": "vh c17 impl vs ocaml/c17/model on this case line. Observation = 7 flags (IsValidJson error, alarm; FilterJson fatal, "
+                               "err; error, alarm of validating the filtered value; filtering it again gives the same value) + the canonical filtered value. "
+                               "Replay by hand: vh c17 probe <file.mro> '<type>' '<json>'"})
+            ctx.fail("model_mismatch", "impl=%s model=%s" % (m[2][:200], m[3][:200]), rep)
         # -- correspondence, kernel: a sample evaluated by vm_compute
         nsample = 150 if ctx.tier == "quick" else 600
         step = max(1, (kinds.get("c", 0) + kinds.get("a", 0)) // (2 * nsample) - 1)
@@ -78,26 +95,18 @@ def check(ctx, args):
     n_ok = n_fail = 0
     classes = {}
     with open(oracle) as fo, open(cases) as fc:
-        env = {}
         for o, c in zip(fo, fc):
             o = o.rstrip("\n")
-            if c.startswith("e "):
-                f = c.split(" ")
-                env[f[1]] = f[2]
             if o == "ok":
                 n_ok += 1
             elif o.startswith("FAIL"):
                 n_fail += 1
                 f = o.split(" ", 2)
                 classes[f[1]] = classes.get(f[1], 0) + 1
-                cf = c.strip().split(" ")
-                mro = bytes.fromhex(env.get(cf[1], "")).decode(errors="replace") if env.get(cf[1], "-") != "-" else ""
-                rep = {"case": c.strip()[:3000], "observed": f[2][:3000], "mro": mro,
-                       "how": "vh c17 oracle: exported Type.IsValidJson/FilterJson/IsAssignableFrom on the compiled types of this MRO; "
-                              "replay by hand with: vh c17 probe <file.mro> <type> '<json>' [<source type>]"}
-                if cf[0] == "c":
-                    rep["type"] = cf[2]
-                    rep["json"] = bytes.fromhex(cf[4]).decode(errors="replace") if cf[4] != "-" else ""
+                rep = describe(c)
+                rep.update({"observed": f[2][:3000],
+                            "how": "vh c17 oracle: exported Type.IsValidJson/FilterJson/IsAssignableFrom on the compiled types of this MRO; "
+                                   "replay by hand with: vh c17 probe <file.mro> '<type>' '<json>' ['<source type>']"})
                 ctx.fail(f[1], f[2][:400], rep)
     cflags = {}
     with open(impl) as fi, open(cases) as fc:
